@@ -311,6 +311,41 @@ class EMNested(EMBase):
 EM_KINDS = [EMPlain, EMDerived, EMAlias, EMList, EMDict, EMWithNN, EMNested, EMWithNNPartial]
 
 
+class EMCallProxy(EditableModule):
+    """a callable EditableModule (the functional is handed the *object*, not a method) that forwards to one
+    method of an inner EditableModule, declaring the inner parameters with a prefix"""
+
+    def __init__(self, inner, mname):
+        self.inner = inner
+        self.mname = mname
+
+    def __call__(self, *args):
+        return getattr(self.inner, self.mname)(*args)
+
+    def getparamnames(self, methodname, prefix=""):
+        if methodname == "__call__":
+            return self.inner.getparamnames(self.mname, prefix=prefix + "inner.")
+        raise KeyError(methodname)
+
+
+class NNCallProxy(torch.nn.Module):
+    """a callable torch.nn.Module whose forward() goes to one method of a sub-module"""
+
+    def __init__(self, inner, mname):
+        super().__init__()
+        self.inner = inner
+        self.mname = mname
+
+    def forward(self, *args):
+        return getattr(self.inner, self.mname)(*args)
+
+
+def call_proxy(actor, mname):
+    if isinstance(actor, torch.nn.Module):
+        return NNCallProxy(actor, mname)
+    return EMCallProxy(actor, mname)
+
+
 # ------------------------------------------------------------ nn.Module kinds
 class NNBase(Maths, torch.nn.Module):
     pass
